@@ -881,7 +881,9 @@ func (j *judgeCtx) judgeEmitters() {
 			for k, n := range cnt {
 				if strings.HasPrefix(k, "TaskDone|") {
 					done += n
-					if n > 1 {
+					// (the inferred names come from the announced positions: with
+					// //line comments two tasks may get one name)
+					if n > 1 && !p.LineDirs {
 						j.add(c18, "emitter %d: %d TaskDone events for task %q in one execution", em, n, strings.TrimPrefix(k, "TaskDone|"))
 					}
 				}
